@@ -7,7 +7,8 @@ from oracle.langs import LANGS, CORE_WORDS
 
 SEP_WORDS = ['lorem', 'ipsum', 'dolor']
 EXTRA = {'fr': ['le', 'du', "l'", 'numéro', 'neuf'], 'en': ['o']}
-FR_SMALL = ['le', 'du', 'un', 'vingt', 'cent', 'neuf', 'numéro', 'dix', 'xyz', 'mille', 'deux']
+FR_SMALL = ['le', 'du', 'vingt', 'cent', 'neuf', 'numéro', 'xyz', 'deux']
+EN_SMALL = ['zero', 'one', 'twenty', 'hundred', 'million', 'and', 'point', 'first', 'o', 'xyz', 'ah']
 INNER_SEPS = [' ', ', ']
 
 
@@ -22,6 +23,8 @@ def worker(ck: Check, job):
         k = 2 if quick else 3
         reps, classes = stream_alphabet(ck, code, True)
         reps = [r for r in reps if H._wordlike(r)] + [x for x in EXTRA.get(code, []) if x not in reps]
+        if code == 'en' and quick:
+            reps = [r for r in reps if r in EN_SMALL]      # the annotator forks on every neighbour of 'o'
     # the separator words must be ordinary words of the language
     exq = new_executor()
     lang = H.lang_value(exq, L.type_name)
@@ -34,13 +37,14 @@ def worker(ck: Check, job):
             raise Inconclusive('%r is not an ordinary word in %s' % (sw, code))
     wa = [z3.BitVec('a_w%d' % i, 16) for i in range(k)]
     wb = [z3.BitVec('b_w%d' % i, 16) for i in range(k)]
+    inner_seps = [' '] if code == 'fr' else INNER_SEPS
     sa = [z3.BitVec('a_s%d' % i, 8) for i in range(k - 1)]
     sb = [z3.BitVec('b_s%d' % i, 8) for i in range(k - 1)]
-    assm = [z3.ULT(x, len(reps)) for x in wa + wb] + [z3.ULT(x, len(INNER_SEPS)) for x in sa + sb]
+    assm = [z3.ULT(x, len(reps)) for x in wa + wb] + [z3.ULT(x, len(inner_seps)) for x in sa + sb]
     A_w = [[(wa[i] == j, r) for j, r in enumerate(reps)] for i in range(k)]
     B_w = [[(wb[i] == j, r) for j, r in enumerate(reps)] for i in range(k)]
-    A_s = [[(sa[i] == j, r) for j, r in enumerate(INNER_SEPS)] for i in range(k - 1)]
-    B_s = [[(sb[i] == j, r) for j, r in enumerate(INNER_SEPS)] for i in range(k - 1)]
+    A_s = [[(sa[i] == j, r) for j, r in enumerate(inner_seps)] for i in range(k - 1)]
+    B_s = [[(sb[i] == j, r) for j, r in enumerate(inner_seps)] for i in range(k - 1)]
     fixed = lambda t: [(True, t)]
     S_words = [fixed(x) for x in SEP_WORDS]
     S_seps_in = [fixed(' '), fixed(' ')]
